@@ -66,6 +66,14 @@ func genC05Load(ref core.CaseRef, r *rand.Rand, n int) *c05Load {
 			c.SinkDelayUs = 5
 		}
 	}
+	if ref.Index%6 == 3 {
+		// the default strategy: a full input buffer drops rows (and says so) - what is delivered keeps its order
+		c.Strategy = "drop"
+		c.DataChan = pick(r, []int{16, 64})
+		if c.SinkDelayUs < 20 {
+			c.SinkDelayUs = 20
+		}
+	}
 	c.SinkPool = pick(r, []int{0, 4, 64})
 	c.Perturb = r.Intn(3) > 0
 	c.Thresh = r.Intn(60) - 10
@@ -118,7 +126,7 @@ func (c *c05Load) wrong(i int, got map[string]any) string {
 }
 
 func runC05Load(ctx *core.Ctx) {
-	n := ctx.N(3, 18)
+	n := ctx.N(4, 18)
 	rows := ctx.N(5000, 20000)
 	par := 4
 	if w := workers(); w < par {
@@ -274,9 +282,14 @@ func execC05Load(ctx *core.Ctx, c *c05Load) {
 		ctx.Inconclusive("watchdog: load run did not drain its input buffer within 120 s")
 		return
 	}
-	if st["input_dropped_count"] != 0 {
+	inDropped := st["input_dropped_count"]
+	if inDropped != 0 && c.Strategy != "drop" {
 		ctx.Inconclusive("engine declared input overload in a load run")
 		return
+	}
+	if c.Strategy == "drop" {
+		ctx.Count("load.drop_strategy_runs", 1)
+		ctx.Count("load.drop_strategy_rows_dropped_declared", inDropped)
 	}
 	ctx.Count("load.rows_emitted", int64(c.N))
 	ctx.Count("load.results_expected", int64(expected))
@@ -309,7 +322,12 @@ func execC05Load(ctx *core.Ctx, c *c05Load) {
 			break
 		}
 	}
-	if sinkOK && len(sids) != expected {
+	if sinkOK && inDropped > 0 {
+		// rows dropped at the input (declared by the counter) may or may not have satisfied the WHERE clause
+		if int64(len(sids)) > int64(expected) || int64(len(sids)) < int64(expected)-inDropped {
+			viol("where.wrong_decision", "sink", fmt.Sprintf("%d rows satisfy the WHERE clause and input_dropped_count=%d, but the sync sink received %d results", expected, inDropped, len(sids)))
+		}
+	} else if sinkOK && len(sids) != expected {
 		viol("where.wrong_decision", "sink", fmt.Sprintf("%d rows satisfy the WHERE clause but the sync sink received %d results (input buffer empty, waited 10 s, then Stop())", expected, len(sids)))
 	}
 
@@ -333,7 +351,7 @@ func execC05Load(ctx *core.Ctx, c *c05Load) {
 			break
 		}
 	}
-	if gap := int64(expected - len(cids)); gap > st["output_dropped_count"] {
+	if gap := int64(expected - len(cids)); gap > st["output_dropped_count"]+inDropped {
 		a := attrs("chan")
 		a["result_chan"] = fmt.Sprint(c.ResultChan)
 		ctx.Count("violations_reported.order.channel_gap_unaccounted", 1)
